@@ -203,6 +203,18 @@ func oneHistory(run *verdict.Run, be *rig.Backend, tg *target, i int) {
 	}
 	rec("settings")
 	nreq := 1 + r.Intn(6)
+	// every 25th history is "heavy": a few hundred PRIORITY frames first (every fingerprint computation
+	// then takes long), then dozens of requests written in bursts, each with a priority block and its own
+	// pseudo-header order, so that handlers compute fingerprints while the next HEADERS is being recorded
+	heavy := i%25 == 7
+	if heavy {
+		nreq = 40 + r.Intn(40)
+		for k := 0; k < 300; k++ {
+			c.Priority(uint32(1000001+2*k), uint32(2*r.Intn(50)), r.Intn(2) == 0, uint8(r.Intn(256)))
+			rec("priority")
+		}
+		run.Add("heavy_histories", 1)
+	}
 	ackAt := r.Intn(nreq + 1) // the client acknowledges the server's SETTINGS before this request (== nreq: never)
 	opened := []uint32{}
 	connWin := int64(65535)
@@ -307,8 +319,12 @@ func oneHistory(run *verdict.Run, be *rig.Backend, tg *target, i int) {
 		batch := []pend{{sid, tag, lo, q, len(steps) - 1, splits}}
 		// a burst: further requests are written before the first one has been answered
 		// (several handlers of one connection compute their fingerprints at the same time)
-		if r.Intn(4) == 0 {
-			for k := 1 + r.Intn(5); k > 0 && q+1 < nreq; k-- {
+		if r.Intn(4) == 0 || heavy {
+			kmax := 1 + r.Intn(5)
+			if heavy {
+				kmax = 10 + r.Intn(20)
+			}
+			for k := kmax; k > 0 && q+1 < nreq; k-- {
 				q++
 				sid2 := c.Next
 				c.Next += 2
@@ -316,7 +332,7 @@ func oneHistory(run *verdict.Run, be *rig.Backend, tg *target, i int) {
 				f2 := h2fp.PseudoOrder(r.Intn(24), "front.example", "/fp", "GET")
 				f2 = append(f2, hpack.HeaderField{Name: strings.ToLower(rig.TagHeader), Value: tag2})
 				var pr2 *h2fp.Prio
-				if r.Intn(2) == 0 {
+				if r.Intn(2) == 0 || heavy {
 					pr2 = &h2fp.Prio{Dep: uint32(r.Intn(int(sid2))), Excl: r.Intn(2) == 0, Weight: uint8(r.Intn(256))}
 					prioCount++
 				}
